@@ -31,24 +31,25 @@ fn eff(acc: &Arc<crate::variable::Mut>, d: i64) -> Instruction {
 fn toggle(flag: &Arc<crate::variable::Mut>) -> Instruction {
     BinOperation { lhs: Instruction::Variable(Variable::Mut(flag.clone())), rhs: Instruction::Variable(Variable::Bool(true)), op: BinOperator::AssignXor }.into()
 }
-/// the instruction kinds occurring in the trees of this file (declared-shape gating, lib/patch.py)
-/// every scenario declares exactly the instruction kinds and operators of its own tree: the
-/// exploration of unresolved heap instructions grows with (kinds x operators) ^ depth
-fn declare_kinds(kinds: u32, binops: u64) {
+/// Declared shape, level by level (lib/patch.py `verif_gate`): CBMC cannot resolve the tag of an
+/// instruction read back from the heap, so every scenario declares which instruction kinds and
+/// binary operators occur at nesting depth 0 and 1 of its own tree (as built *and* as folded); depth 2
+/// holds constants only.  A real execution that leaves the declared shape makes the harness FAIL.
+fn declare_levels(l0_kinds: u32, l0_ops: u64, l1_kinds: u32, l1_ops: u64) {
     use crate::instruction::verif_gate::*;
     allow_unops(0);
-    allow_binops(binops);
+    allow_binops(u64::MAX);
+    allow_mask(u32::MAX);
     // operands of `+=` are ints: no compound value is ever concatenated or typed
     crate::variable::verif_valgate::allow_vals(0);
-    allow_mask((1 << K_VARIABLE) | (1 << K_BINOPERATION) | kinds);
+    allow_at(0, l0_kinds, l0_ops);
+    allow_at(1, l1_kinds, l1_ops);
+    allow_at(2, KV, 0);
+    allow_at(3, 0, 0);
 }
 use crate::instruction::verif_gate::b as opbit;
-fn declare() {
-    use crate::instruction::verif_gate::*;
-    allow_binops(b(crate::BinOperator::AssignAdd) | b(crate::BinOperator::AssignXor) | b(crate::BinOperator::Subtract) | b(crate::BinOperator::And) | b(crate::BinOperator::Or) | b(crate::BinOperator::AssignSubtract));
-    allow_unops(0);
-    allow_mask((1 << K_VARIABLE) | (1 << K_BINOPERATION) | (1 << K_ARRAY) | (1 << K_TUPLE) | (1 << K_STRUCT) | (1 << K_ARRAYREPEAT) | (1 << K_SLICING) | (1 << K_IFELSE));
-}
+const KV: u32 = 1 << crate::instruction::verif_gate::K_VARIABLE;
+const KB: u32 = 1 << crate::instruction::verif_gate::K_BINOPERATION;
 fn run(i: &Instruction) -> Result<Variable, ExecStop> {
     let mut interp = Interpreter::without_stdlib();
     i.exec(&mut interp)
@@ -70,7 +71,7 @@ fn s(a: i64, b: i64) -> i64 { a.wrapping_add(b) }
 
 /// binary operator: lhs then rhs, each once.  `-` makes the order visible in the result.
 fn binop_order(fold: bool) {
-    declare_kinds(0, opbit(BinOperator::Subtract) | opbit(BinOperator::AssignAdd));
+    declare_levels(KB, opbit(BinOperator::Subtract), KB, opbit(BinOperator::AssignAdd));
     let (a0, d1, d2): (i64, i64, i64) = (kani::any(), kani::any(), kani::any());
     let acc = new_cell(Type::Int, Variable::Int(a0));
     let mut tree: Instruction = BinOperation { lhs: eff(&acc, d1), rhs: eff(&acc, d2), op: BinOperator::Subtract }.into();
@@ -91,7 +92,7 @@ pub fn order_binop_folded() { binop_order(true); kani::cover!(true); }
 
 /// array, tuple and struct literals: elements left to right, each once
 fn seq_order(kind: u8, fold: bool) {
-    declare_kinds(match kind { 0 => 1 << crate::instruction::verif_gate::K_ARRAY, 1 => 1 << crate::instruction::verif_gate::K_TUPLE, _ => 1 << crate::instruction::verif_gate::K_STRUCT }, opbit(BinOperator::AssignAdd));
+    declare_levels(match kind { 0 => 1 << crate::instruction::verif_gate::K_ARRAY, 1 => 1 << crate::instruction::verif_gate::K_TUPLE, _ => 1 << crate::instruction::verif_gate::K_STRUCT }, 0, KB, opbit(BinOperator::AssignAdd));
     let (a0, d1, d2, d3): (i64, i64, i64, i64) = (kani::any(), kani::any(), kani::any(), kani::any());
     let acc = new_cell(Type::Int, Variable::Int(a0));
     let elems: Arc<[InstructionWithStr]> = Arc::from(vec![iws(eff(&acc, d1)), iws(eff(&acc, d2)), iws(eff(&acc, d3))]);
@@ -128,7 +129,7 @@ seq_harness!(order_struct_folded, 2, true);
 
 /// `[value; len]`: value then length, each once (length = acc after two increments, kept small)
 fn repeat_order(fold: bool) {
-    declare_kinds(1 << crate::instruction::verif_gate::K_ARRAYREPEAT, opbit(BinOperator::AssignAdd));
+    declare_levels(1 << crate::instruction::verif_gate::K_ARRAYREPEAT, 0, KB, opbit(BinOperator::AssignAdd));
     let (d1, d2): (i64, i64) = (kani::any(), kani::any());
     kani::assume(d1 >= 0 && d1 <= 1 && d2 >= 0 && d2 <= 1);
     let acc = new_cell(Type::Int, Variable::Int(0));
@@ -155,7 +156,7 @@ pub fn order_array_repeat_folded() { repeat_order(true); kani::cover!(true); }
 
 /// slice: sequence, then start, stop, step, each once
 fn slice_order(fold: bool) {
-    declare_kinds(1 << crate::instruction::verif_gate::K_SLICING, opbit(BinOperator::AssignAdd));
+    declare_levels(1 << crate::instruction::verif_gate::K_SLICING, 0, KB | KV, opbit(BinOperator::AssignAdd));
     let acc = new_cell(Type::Int, Variable::Int(0));
     // the sequence operand has an effect too: it sets acc to 10 (`acc = 10` yields 10 - not a sequence),
     // so the sequence is a constant and the three bounds carry the order: start = 1, stop = 1+2, step = 1+2-2
@@ -186,7 +187,9 @@ pub fn order_slice_bounds_folded() { slice_order(true); kani::cover!(true); }
 
 /// `&&` / `||`: the right operand runs iff the left one does not decide; left exactly once
 fn short_circuit(or: bool, lhs_effect: bool, fold: bool) {
-    declare_kinds(0, opbit(BinOperator::AssignXor) | opbit(if or { BinOperator::Or } else { BinOperator::And }));
+    let sc = opbit(if or { BinOperator::Or } else { BinOperator::And });
+    // folding may replace the whole operation by its right operand or by a constant
+    if fold { declare_levels(KB | KV, sc | opbit(BinOperator::AssignXor), KB | KV, opbit(BinOperator::AssignXor)); } else { declare_levels(KB, sc, KB | KV, opbit(BinOperator::AssignXor)); }
     let p: bool = kani::any();
     let f0: bool = kani::any();
     let lflag = new_cell(Type::Bool, Variable::Bool(!p)); // toggled once it becomes p
@@ -220,7 +223,8 @@ sc_harness!(short_circuit_or_const_lhs_folded, true, false, true);
 
 /// `lhs && <constant>` / `lhs || <constant>`: the left operand's effect survives folding
 fn const_rhs(or: bool, c: bool) {
-    declare_kinds(0, opbit(BinOperator::AssignXor) | opbit(if or { BinOperator::Or } else { BinOperator::And }));
+    let sc = opbit(if or { BinOperator::Or } else { BinOperator::And });
+    declare_levels(KB | KV, sc | opbit(BinOperator::AssignXor), KB | KV, opbit(BinOperator::AssignXor));
     let p: bool = kani::any();
     let lflag = new_cell(Type::Bool, Variable::Bool(!p));
     let tree: Instruction = BinOperation { lhs: toggle(&lflag), rhs: Instruction::Variable(Variable::Bool(c)), op: if or { BinOperator::Or } else { BinOperator::And } }.into();
@@ -243,7 +247,10 @@ pub fn short_circuit_const_rhs_folded() {
 
 /// if / else: condition once, then only the chosen branch
 fn if_else(fold: bool, const_cond: bool) {
-    declare_kinds(1 << crate::instruction::verif_gate::K_IFELSE, opbit(BinOperator::AssignAdd) | opbit(BinOperator::AssignXor));
+    let kif = 1 << crate::instruction::verif_gate::K_IFELSE;
+    let ops = opbit(BinOperator::AssignAdd) | opbit(BinOperator::AssignXor);
+    // a constant condition lets the folding pass keep only the chosen branch
+    if fold { declare_levels(kif | KB, ops, KB | KV, ops); } else { declare_levels(kif, 0, KB | KV, ops); }
     let (a0, d1, d2): (i64, i64, i64) = (kani::any(), kani::any(), kani::any());
     let c: bool = kani::any();
     let acc = new_cell(Type::Int, Variable::Int(a0));
@@ -271,7 +278,7 @@ if_harness!(branch_if_const_cond_folded, true, true);
 
 /// assignment: target then value; the update reads the cell after the value was evaluated
 fn assign_order(fold: bool) {
-    declare_kinds(0, opbit(BinOperator::AssignAdd) | opbit(BinOperator::AssignSubtract));
+    declare_levels(KB, opbit(BinOperator::AssignSubtract), KB | KV, opbit(BinOperator::AssignAdd));
     let (a0, d1, d2): (i64, i64, i64) = (kani::any(), kani::any(), kani::any());
     let acc = new_cell(Type::Int, Variable::Int(a0));
     // acc -= (acc += d1)   : value evaluated first bumps acc to a0+d1, then acc = (a0+d1) - (a0+d1) = 0
